@@ -47,9 +47,11 @@
         all lengths, every WRITE of sealAsm/openAsm goes through `dst` or through `temp` (the 32-byte
         scratch, a stack array of the calling goroutine); of cryptoBlockAsm* through `dst`;
         expandKeyAsm writes only the round-key arrays of the object under construction.  That the
-        access models are the accesses of the listings, and that every access is inside its
-        region, is C11 (Proofs/AsmAccessTie*, Proofs/AsmAccessBounds); `asm_writes_are_local`
-        shows how the bounds turn the region-level statement into locations.
+        access models are the accesses of the listings is C11 (Proofs/AsmAccessTie*, bounded,
+        computational).  With C11's bounds for all lengths (Proofs/AsmAccessBounds)
+        `sealAsm_writes_are_local`, `openAsm_writes_are_local`, `blockAsm_writes_are_local` give
+        the statement at the level of locations: every byte stored lies in the `dst` bytes of
+        the call or in its 32-byte `temp`.
      c. Package-level state (`no_package_level_writes`,
         `package_level_method_calls_readonly`): by `decide` over lists GENERATED from the Go
         sources on every check run (so they are re-checked whenever the sources change).
@@ -88,6 +90,7 @@ import SMGo.Model.Interleave
 import SMGo.Proofs.Interleave
 import SMGo.Proofs.InterleaveHeap
 import SMGo.Proofs.InterleaveAsm
+import SMGo.Proofs.AsmAccessBounds
 namespace SMGo.Props.C17
 open SMGo SMGo.Model SMGo.Model.Mem SMGo.Model.GCMGlue SMGo.Model.Interleave
 open SMGo.Proofs.GCMGlue (AsmLens Disjoint)
@@ -440,6 +443,51 @@ theorem asm_writes_are_local (accs : List AsmAccess.Access) (A : List AsmAccess.
     ∃ r ∈ A, place r ≤ l ∧ l < place r + size r := by
   obtain ⟨pa, hpa, hwr, h1, h2⟩ := Proofs.Interleave.accessProg_writes f _ l hl
   exact Proofs.InterleaveAsm.writes_within accs A size place hw hb pa hpa hwr l h1 h2
+
+/-- **sealAsm, at the level of locations** (C11's bounds `sealModel_in` discharge the hypothesis of
+    `asm_writes_are_local`): with the argument regions placed anywhere, every byte a run of sealAsm
+    stores lies in the `len(plaintext)+tagSize` bytes at `dst` or in the 32 bytes of `temp` -/
+theorem sealAsm_writes_are_local (tagSize nl pl al : Nat) (h12 : 12 ≤ tagSize) (h16 : tagSize ≤ 16)
+    (place : AsmAccess.Region → Nat) {Val : Type} (f : Nat → List Val → Val) (l : Nat)
+    (hl : progWrites (accessProg f
+      ((AsmAccessModel.sealModel tagSize nl pl al).map (placeAccess place))) l) :
+    (place AsmAccessModel.aDst ≤ l ∧ l < place AsmAccessModel.aDst + (pl + tagSize)) ∨
+    (place AsmAccessModel.aTmp ≤ l ∧ l < place AsmAccessModel.aTmp + 32) := by
+  obtain ⟨r, hr, h1, h2⟩ := asm_writes_are_local _ _ (AsmAccessModel.sealSize tagSize nl pl al) place
+    (asm_write_sets.sealAsm tagSize nl pl al)
+    (Proofs.AsmAccessBounds.sealModel_in tagSize nl pl al h12 h16).all f l hl
+  simp only [List.mem_cons, List.mem_nil_iff, or_false] at hr
+  rcases hr with rfl | rfl
+  · exact Or.inl ⟨h1, h2⟩
+  · exact Or.inr ⟨h1, h2⟩
+
+/-- **openAsm, at the level of locations**: every byte stored lies in the `len(ciphertext)-tagSize`
+    bytes at `dst` or in the 32 bytes of `temp` — whether the tags match or not -/
+theorem openAsm_writes_are_local (tagSize nl cl al : Nat) (tagOk : Bool) (h12 : 12 ≤ tagSize)
+    (h16 : tagSize ≤ 16) (hcl : tagSize ≤ cl)
+    (place : AsmAccess.Region → Nat) {Val : Type} (f : Nat → List Val → Val) (l : Nat)
+    (hl : progWrites (accessProg f
+      ((AsmAccessModel.openModel tagSize nl cl al tagOk).map (placeAccess place))) l) :
+    (place AsmAccessModel.aDst ≤ l ∧ l < place AsmAccessModel.aDst + (cl - tagSize)) ∨
+    (place AsmAccessModel.aTmp ≤ l ∧ l < place AsmAccessModel.aTmp + 32) := by
+  obtain ⟨r, hr, h1, h2⟩ := asm_writes_are_local _ _ (AsmAccessModel.openSize tagSize nl cl al) place
+    (asm_write_sets.openAsm tagSize nl cl al tagOk)
+    (Proofs.AsmAccessBounds.openModel_in tagSize nl cl al tagOk h12 h16 hcl).all f l hl
+  simp only [List.mem_cons, List.mem_nil_iff, or_false] at hr
+  rcases hr with rfl | rfl
+  · exact Or.inl ⟨h1, h2⟩
+  · exact Or.inr ⟨h1, h2⟩
+
+/-- **cryptoBlockAsm, at the level of locations**: every byte stored lies in the 16 bytes at `dst` -/
+theorem blockAsm_writes_are_local (place : AsmAccess.Region → Nat) {Val : Type}
+    (f : Nat → List Val → Val) (l : Nat)
+    (hl : progWrites (accessProg f (AsmAccessModel.blockModel.map (placeAccess place))) l) :
+    place (.arg 16) ≤ l ∧ l < place (.arg 16) + 16 := by
+  obtain ⟨r, hr, h1, h2⟩ := asm_writes_are_local _ _ (AsmAccessModel.blockSize 1) place
+    asm_write_sets.block.1 Proofs.AsmAccessBounds.blockModel_in.all f l hl
+  simp only [List.mem_cons, List.mem_nil_iff, or_false] at hr
+  subst hr
+  exact ⟨h1, h2⟩
 
 /-- the operand order of before repair 25081bb has a write access to the ciphertext region -/
 theorem old_tag_compare_writes_ciphertext (cl tagSize : Nat) (ht : 0 < tagSize) :
@@ -806,6 +854,9 @@ end examples
 #print axioms block_block_commute
 #print axioms asm_write_sets
 #print axioms asm_writes_are_local
+#print axioms sealAsm_writes_are_local
+#print axioms openAsm_writes_are_local
+#print axioms blockAsm_writes_are_local
 #print axioms old_tag_compare_writes_ciphertext
 #print axioms no_package_level_writes
 #print axioms package_level_method_calls_readonly
